@@ -33,7 +33,7 @@ import (
 // inequality per pair and the per-conversion delta identity.
 type c10 struct{}
 
-func init() { register("C10", func() e.Profile { return &c10{} }) }
+// (registered through c10mux in c10ibc.go, which adds the two-chain IBC runs)
 
 func (c10) ID() string { return "C10" }
 
@@ -223,6 +223,10 @@ func (c10) Gen(w *e.World, r *e.RNG) e.Step {
 		if r.Chance(0.5) {
 			toModule = 1
 		}
+		if r.Chance(0.2) {
+			// an allowance (towards the module address or an account) moves nothing
+			return e.Step{K: "tx", Op: "erc20_approve", A: a, B: b, N: []int64{int64(pi), toModule}, S: []string{amt(max)}}
+		}
 		return e.Step{K: "tx", Op: "erc20_transfer", A: a, B: b, N: []int64{int64(pi), toModule}, S: []string{amt(max)}}
 	case 4:
 		max := new(big.Int)
@@ -373,7 +377,7 @@ func (p c10) Exec(w *e.World, st *e.Step) *e.Violation {
 		res, err = w.DoCosmos(a, e.TxOpts{}, erc20types.NewMsgConvertERC20(sdkmath.NewIntFromBigInt(amt), b.Acc, contract, a.Eth))
 	case "bank_send":
 		res, err = w.DoCosmos(a, e.TxOpts{}, banktypes.NewMsgSend(a.Acc, b.Acc, sdk.NewCoins(e.C(pr.Denom, amt))))
-	case "erc20_transfer", "erc20_burn":
+	case "erc20_transfer", "erc20_burn", "erc20_approve":
 		to := b.Eth
 		if st.NArg(1) == 1 {
 			to = erc20types.ModuleAddress
@@ -381,6 +385,8 @@ func (p c10) Exec(w *e.World, st *e.Step) *e.Violation {
 		var data []byte
 		if st.Op == "erc20_burn" {
 			data, err = contracts.ERC20MinterBurnerDecimalsContract.ABI.Pack("burn", amt)
+		} else if st.Op == "erc20_approve" {
+			data, err = contracts.ERC20MinterBurnerDecimalsContract.ABI.Pack("approve", to, amt)
 		} else {
 			data, err = contracts.ERC20MinterBurnerDecimalsContract.ABI.Pack("transfer", to, amt)
 		}
@@ -450,6 +456,11 @@ func (p c10) Exec(w *e.World, st *e.Step) *e.Violation {
 			if st.A != st.B && total.Cmp(amt) != 0 {
 				return e.Violatef("erc20-peg", "conversion-delta-wrong:bank_send:"+kind, "%s: recipient received %s tokens + %s coins", desc, dTokB, dBankB)
 			}
+		}
+	case "erc20_approve":
+		w.Stats.Probe("allowance_given")
+		if dBankA.Sign() != 0 && !feeDenom(d) || dTokA.Sign() != 0 || (st.A != st.B && (dBankB.Sign() != 0 || dTokB.Sign() != 0)) {
+			return e.Violatef("erc20-peg", "approval-moved-funds:"+kind, "%s: an ERC20 approve changed balances: owner coins -%s tokens -%s, spender coins +%s tokens +%s", desc, dBankA, dTokA, dBankB, dTokB)
 		}
 	case "erc20_burn":
 		if ok && pr.ContractOwner == erc20types.OWNER_MODULE {
